@@ -9,6 +9,10 @@ A kernel is located by (file, function qualname, locator).  Locators:
   ("if_test", n)             the test of the n-th `if` statement (source order, nested included)
   ("call_kw", func, kw)      the keyword argument `kw` of the first call to `func` inside the function
   ("mult_zero", n)           the multiplier of the n-th `b"\\x00" * <expr>` expression
+  ("slice_upper", var)       the upper bound of the first subscript slice of `var` that has one
+  ("slice_upper_n", var, n)  the upper bound of the n-th subscript slice of `var` that has one
+  ("slice_lower_n", var, n)  the lower bound of the n-th OPEN-ENDED subscript slice of `var` (`var[<lower>:]`: how far a decoder moves)
+  ("slice_from_n", var, n)   the lower bound of the n-th subscript slice of `var` that has one (with or without an upper bound)
   ("return_elt", ...)        not needed so far
 
 The translator accepts a closed subset of Python expressions: integer literals, names,
